@@ -4,7 +4,12 @@
 From W Require Import model.Base model.Engine proofs.EngineWF proofs.EngineInv.
 From Coq Require Import ZArith ZifyBool ZifyN ZifyNat.
 
-(* a block image as the writer leaves it *)
+(* the extent the allocator gives a block, as a function of the entry it was allocated for *)
+Definition extent_of (c : Cfg) (e : entry) : N :=
+  if c_block c <? need c e then round_up c (need c e) else c_block c.
+
+(* a block image as the writer leaves it: written by one topic; a one-unit block, or a
+   multi-unit block whose first entry is the large one it was sized for; content inside it *)
 Definition dwf (c : Cfg) (b : dblk) : Prop :=
   match d_ents b with
   | [] => True
@@ -29,22 +34,37 @@ Proof.
     + destruct (k =? t'); [reflexivity|exact IH].
 Qed.
 
-(* the walk sees every entry of a block whose content fits its extent *)
-Lemma walk_unit_all c (Hh : 0 < c_hdr c) lim : forall es pos acc,
-  pos + sum_need c es <= lim -> walk_unit c lim es pos acc = (rev acc ++ es, pos + sum_need c es).
+(* entries that fit inside the extent known so far are all seen, and the extent stays *)
+Lemma walk_unit_fit c (Hh : 0 < c_hdr c) lim : forall es pos acc,
+  pos + sum_need c es <= lim -> walk_unit c lim es pos acc = (rev acc ++ es, pos + sum_need c es, lim).
 Proof.
   induction es as [|e es IH]; intros pos acc Hfit; cbn [walk_unit sum_need].
   - now rewrite app_nil_r, N.add_0_r.
   - cbn [sum_need] in Hfit. pose proof (need_pos c e Hh).
     replace (lim <=? pos) with false by lia.
-    rewrite IH by lia. cbn [rev]. rewrite <- app_assoc. cbn. f_equal. lia.
+    replace (lim <? pos + need c e) with false by lia.
+    rewrite IH by lia. cbn [rev]. rewrite <- app_assoc. cbn. f_equal. f_equal. lia.
+Qed.
+
+(* a whole well-formed block: every entry is seen and the derived extent is the allocated one *)
+Lemma walk_block c (Hh : 0 < c_hdr c) (Hb : 0 < c_block c) e1 es L :
+  extent_of c e1 = L -> sum_need c (e1 :: es) <= L ->
+  walk_unit c (c_block c) (e1 :: es) 0 [] = (e1 :: es, sum_need c (e1 :: es), L).
+Proof.
+  intros Hext Hfit. unfold extent_of in Hext.
+  destruct (c_block c <? need c e1) eqn:E.
+  - (* multi-unit: the first entry extends the extent to the allocated one *)
+    cbn [walk_unit]. replace (c_block c <=? 0) with false by lia. rewrite N.add_0_l, E, Hext.
+    cbn [sum_need] in Hfit. rewrite (walk_unit_fit c Hh L es (need c e1) [e1]) by lia.
+    cbn [rev app sum_need]. reflexivity.
+  - subst L. rewrite (walk_unit_fit c Hh (c_block c) (e1 :: es) 0 []) by lia. cbn [rev app]. now rewrite N.add_0_l.
 Qed.
 
 (* entries the blocks of one file hold for topic id [t] *)
 Definition ents_of_topic (t : N) (blocks : list dblk) : list entry :=
   flat_map (fun b => match d_topic b with Some t0 => if t_id t0 =? t then d_ents b else [] | None => [] end) blocks.
 
-Theorem scan_blocks_complete c (Hh : 0 < c_hdr c) f : forall blocks zeros next_id acc,
+Theorem scan_blocks_complete c (Hh : 0 < c_hdr c) (Hb : 0 < c_block c) f : forall blocks zeros next_id acc,
   Forall (dwf c) blocks ->
   let '(acc', id') := scan_blocks c f blocks zeros next_id acc in
   rc_flag acc' = rc_flag acc /\ next_id <= id' /\
@@ -52,16 +72,17 @@ Theorem scan_blocks_complete c (Hh : 0 < c_hdr c) f : forall blocks zeros next_i
 Proof.
   induction blocks as [|b blocks IH]; intros zeros next_id acc Hwf; cbn [scan_blocks].
   - repeat split; [lia|]. intros t. cbn. now rewrite app_nil_r.
-  - inversion Hwf as [|x l Hb Hrest]; subst. unfold dwf in Hb.
+  - inversion Hwf as [|x l Hbw Hrest]; subst. unfold dwf in Hbw.
     destruct (d_ents b) as [|e1 es] eqn:Ee.
     + (* never written: skipped, the scan goes on *)
       specialize (IH (zeros + d_limit b / c_block c) next_id acc Hrest).
       destruct (d_topic b) as [tb|] eqn:Etb; destruct (scan_blocks _ _ blocks _ _ _) as [acc' id'];
         destruct IH as (A & B & C); repeat split; auto; intros t'; rewrite C; cbn [ents_of_topic flat_map];
         rewrite ?Etb, ?Ee; try destruct (t_id tb =? t'); reflexivity.
-    + destruct Hb as ((t0 & Ht0) & Hext & Hfit). rewrite Ht0, Hext, N.eqb_refl. cbn [negb].
-      rewrite (walk_unit_all c Hh (d_limit b) (e1 :: es) 0 []) by lia. cbn [rev app].
-      match goal with |- context [scan_blocks c f blocks 0 ?i ?a] => specialize (IH 0 i a Hrest) end.
+    + destruct Hbw as ((t0 & Ht0) & Hext & Hfit). rewrite Ht0.
+      rewrite (walk_block c Hh Hb e1 es (d_limit b) Hext Hfit).
+      replace (d_limit b <? d_limit b) with false by lia.
+      match goal with |- context [scan_blocks c f blocks ?z ?i ?a] => specialize (IH z i a Hrest) end.
       destruct (scan_blocks _ _ blocks _ _ _) as [acc' id'].
       destruct IH as (A & B & C). cbn [rc_flag rc_chains] in *. repeat split; [exact A|lia|].
       intros t. rewrite C. cbn [ents_of_topic flat_map]. rewrite ?Ht0, ?Ee.
@@ -81,7 +102,7 @@ Fixpoint files_ents (t : N) (nfiles : nat) (f : N) (disk : list dblk) : list ent
   | S k => ents_of_topic t (filter (fun x => d_file x =? f) disk) ++ files_ents t k (f + 1) disk
   end.
 
-Theorem scan_files_complete c (Hh : 0 < c_hdr c) : forall nfiles f disk next_id acc,
+Theorem scan_files_complete c (Hh : 0 < c_hdr c) (Hb : 0 < c_block c) : forall nfiles f disk next_id acc,
   Forall (dwf c) disk ->
   let '(acc', id') := scan_files c nfiles f disk next_id acc in
   rc_flag acc' = rc_flag acc /\
@@ -91,7 +112,7 @@ Proof.
   - split; [reflexivity|]. intros t. now rewrite app_nil_r.
   - assert (Hwf' : Forall (dwf c) (filter (fun x => d_file x =? f) disk)).
     { apply Forall_forall. intros x Hx. apply filter_In in Hx. destruct Hx as (Hx & _). eapply Forall_forall in Hwf; eauto. }
-    pose proof (scan_blocks_complete c Hh f _ 0 next_id acc Hwf') as H1.
+    pose proof (scan_blocks_complete c Hh Hb f _ 0 next_id acc Hwf') as H1.
     destruct (scan_blocks _ _ _ _ _ _) as [acc1 id1]. destruct H1 as (A1 & _ & C1).
     specialize (IH (f + 1) disk id1 acc1 Hwf).
     destruct (scan_files _ _ _ _ _ _) as [acc' id']. destruct IH as (A2 & C2).
